@@ -12,6 +12,7 @@ mod packet;
 mod proj;
 mod rdata;
 mod reparse;
+mod replay;
 mod store;
 mod txt;
 mod util;
@@ -33,6 +34,7 @@ fn main() {
         "edns" => edns::run(&a),
         "reparse" => reparse::run(&a),
         "txt" => txt::run(&a),
+        "replay" => replay::run(&a),
         "store" => store::run(&a),
         "discover" => mdns::run_discover(&a),
         "datagram" => mdns::run_datagram(&a),
